@@ -357,14 +357,19 @@ func normalizeSpace(ctx *context, args []Datum) (retLit Datum) {
 
 	lit0 := args[0].Literal("normalizeSpace()")
 
-	fields := strings.Fields(lit0)
+	// XPath whitespace is #x20, #x9, #xD and #xA only.
+	fields := strings.FieldsFunc(lit0, func(c rune) bool {
+		return c == ' ' || c == '\t' || c == '\r' || c == '\n'
+	})
 	var b bytes.Buffer
-	for _, field := range fields {
+	for i, field := range fields {
+		if i > 0 {
+			b.WriteString(" ")
+		}
 		b.WriteString(field)
-		b.WriteString(" ")
 	}
+	// An empty or all-whitespace argument gives the empty string.
 	retStr := b.String()
-	retStr = retStr[:len(retStr)-1] // Remove last space
 	return NewLiteralDatum(retStr)
 }
 
